@@ -27,7 +27,8 @@ Proof.
   pose proof (proxy_call_agrees ex_bh ex_root ex_path ex_i
                 (mk (B "MTwo") [(B "a0", TU); (B "a1", TS)] (OTuple [TS; TU]) false false) [VU 5; VS (B "x")]
                 ex_registered eq_refl (std_respects ex_d eq_refl)) as K.
-  cbn zeta in K. destruct (proxy_call _ _ _ _ _ _) as [[r ef] root']. apply K. repeat constructor.
+  cbn zeta in K. destruct (proxy_call _ _ _ _ _ _) as [[r ef] root'].
+  destruct K as (K1 & _ & _ & K4); [repeat constructor|]. split; assumption.
 Qed.
 
 (* signals with a single structure argument, two arguments, none *)
